@@ -127,6 +127,17 @@ def module_grid():
             ops += [f"disable svc=svc prov={P1} owner={O1}", f"disable svc=svc prov={P2} owner={O1}"]
             ops += ["endblock dt=5000000000"] * 8
             out.append((f"grid:module:thr{thr}:{pattern}", ops))
+    # the response threshold changed while a batch is in flight: the next batch is decided with the threshold in force
+    for newthr, disable in ((2, True), (2, False), (1, True)):
+        ops = prelude(two_providers=True)
+        ops.append(f"modcreate tx={tx(0xC06)} idx=0 mod=oracle svc=svc provs={P1},{P2} cons={C1} cap=10 timeout=2 "
+                   f"super=0 rep=1 freq=3 total=3 input=ok state=running thr={3 - newthr}")
+        ops.append("endblock dt=5000000000")
+        ops.append(f"modupdate ctx={ctx_id(0xC06)} cons={C1} provs=- thr={newthr} cap=- timeout=0 freq=0 total=0")
+        if disable:
+            ops.append(f"disable svc=svc prov={P2} owner={O1}")
+        ops += ["endblock dt=5000000000"] * 7
+        out.append((f"grid:module:rethreshold{newthr}:{'one' if disable else 'two'}-eligible", ops))
     return out
 
 
@@ -220,6 +231,6 @@ GRIDS = {
 FOR_PROPERTY = {
     "C01": ["respond", "pricing"], "C02": ["respond", "lifecycle", "pricing"], "C04": ["respond"], "C08": ["respond"],
     "C09": ["lifecycle"], "C10": ["lifecycle"], "C11": ["lifecycle", "respond"], "C12": ["module", "respond"],
-    "C16": ["lifecycle", "respond"], "C06": ["respond", "pricing"], "C18": ["respond"], "C20": ["lifecycle"],
+    "C16": ["lifecycle", "respond"], "C06": ["respond", "pricing", "module"], "C18": ["respond"], "C20": ["lifecycle"],
     "C17": ["query"], "C15": ["query"], "C07": ["pricing", "respond"],
 }
